@@ -210,9 +210,14 @@ type sim struct {
 	opCount  int
 	resolved bool // a non-empty resolver update was accepted
 
-	log       []string
-	viol      *vViol
-	exemptMax bool
+	log        []string
+	viol       *vViol
+	exemptMax  bool
+	macroTries int
+	// keys that were served by a stand-in at some point of this history
+	stoodIn map[string]bool
+	// keys removed by a successful UNBIND and not bound again since
+	unbound map[string]bool
 	// NewSubConn calls that passed an empty address list although the latest resolved list is not empty
 	emptyAddrCalls int
 	// an empty resolver list is being delivered right now (s.addrs is updated after the call)
@@ -1145,6 +1150,10 @@ func (s *sim) start(method string, key string, p *simPub, withGcp bool, hasDl bo
 		if attempts > 0 && s.prop == "C03" {
 			s.fail("C03.growth-unsaturated", "", "pool grew although a READY channel has %d < watermark %d streams", mn, s.wm)
 		}
+		if (ch == nil || !inSnap(ch) || inflightBefore[ch] != mn) && s.prop == "C01" && keyed && s.unbound[key] {
+			// C01: after a successful UNBIND the key is routed like an unknown key
+			s.fail("C01.after-unbind", cls, "key %q was unbound by a successful UNBIND, a later call carrying it must be routed like an unknown key (least-loaded READY channel, min in-flight %d): got %s (in-flight %d) err=%v", key, mn, simChID(ch), inflightBefore[ch], err)
+		}
 		if ch == nil || !inSnap(ch) || inflightBefore[ch] != mn {
 			s.fail("C02.least-loaded", cls, "min in-flight over the picker's channels is %d: got %s (in-flight %d) err=%v", mn, simChID(ch), inflightBefore[ch], err)
 		}
@@ -1195,6 +1204,11 @@ func (s *sim) keyedRules(p *simPub, isCur bool, key string, home *simChan, ch *s
 		}
 		if isCur {
 			s.hit("C01.home-ready-cur")
+			if ch != home && s.prop == "C08" && s.fallback && s.stoodIn[key] {
+				// C08: from the moment the home channel is READY again every call for the key
+				// goes back home; fallback never changes which channel the key is bound to
+				s.fail("C08.return-home", after, "key %q had a stand-in while its home ch%d was down; the home is READY again but the current picker gave %s err=%v", key, home.id, simChID(ch), err)
+			}
 			if ch != home {
 				s.fail("C01.home-ready", "cur"+after, "key %q bound to ch%d (READY) but the current picker gave %s err=%v", key, home.id, simChID(ch), err)
 			}
@@ -1241,6 +1255,10 @@ func (s *sim) keyedRules(p *simPub, isCur bool, key string, home *simChan, ch *s
 	}
 	if ch != nil {
 		s.stand[key] = ch
+		if s.stoodIn == nil {
+			s.stoodIn = map[string]bool{}
+		}
+		s.stoodIn[key] = true
 	}
 }
 
@@ -1551,6 +1569,7 @@ func (s *sim) finish(i int, outcome string, replyKeys []string) {
 				for _, k := range s.replyKeysFor(c, replyKeys) {
 					if _, ok := s.bind[k]; !ok {
 						s.bind[k] = ch
+						delete(s.unbound, k)
 						s.hit("C01.bind")
 					} else {
 						s.hit("C01.rebind-ignored")
@@ -1561,6 +1580,10 @@ func (s *sim) finish(i int, outcome string, replyKeys []string) {
 			if c.key != "" {
 				if _, ok := s.bind[c.key]; ok {
 					s.hit("C01.unbind")
+					if s.unbound == nil {
+						s.unbound = map[string]bool{}
+					}
+					s.unbound[c.key] = true
 				}
 				delete(s.bind, c.key)
 				delete(s.stand, c.key)
@@ -1646,6 +1669,7 @@ func simBias(prop string, rng *vRand) map[string]bool {
 		pick("nofallback", 40)
 		pick("rebind-macro", 35)
 		pick("shutdown", 30)
+		pick("orphan-refresh", 25)
 		pick("rr", 15)
 	case "C02":
 		pick("load", 100)
@@ -1705,6 +1729,7 @@ func simBias(prop string, rng *vRand) map[string]bool {
 		pick("stale", 30)
 		pick("rebind-macro", 30)
 		pick("shutdown", 25)
+		pick("orphan-refresh", 30)
 	case "C09":
 		pick("rr", 100)
 		pick("keys", 50)
@@ -1881,6 +1906,10 @@ func simRunCase(env vEnv, out *vOut, idx int64) *sim {
 	if b["orphan-refresh"] && s.det && !s.hostile && !s.rr {
 		orphanFrom = rng.Intn(nOps)
 	}
+	unbindAcrossFrom := -1
+	if s.prop == "C01" && b["shutdown"] && !s.hostile && !s.rr && rng.Chance(30) {
+		unbindAcrossFrom = rng.Intn(nOps)
+	}
 	for i := 0; i < nOps && s.viol == nil && !s.dead; i++ {
 		if i == macroAt {
 			s.macroRebindAfterFallbackUnbind()
@@ -1888,6 +1917,10 @@ func simRunCase(env vEnv, out *vOut, idx int64) *sim {
 		}
 		if orphanFrom >= 0 && i >= orphanFrom && s.macroShutdownDuringRefresh() {
 			orphanFrom = -1
+			continue
+		}
+		if unbindAcrossFrom >= 0 && i >= unbindAcrossFrom && s.macroUnbindAcrossShutdown() {
+			unbindAcrossFrom = -1
 			continue
 		}
 		s.step()
@@ -2617,12 +2650,26 @@ func (s *sim) macroRebindAfterFallbackUnbind() {
 // Returns false if no refresh is in progress right now.
 func (s *sim) macroShutdownDuringRefresh() bool {
 	var ch *simChan
+	hasKeys := func(c *simChan) bool {
+		for _, h := range s.bind {
+			if h == c {
+				return true
+			}
+		}
+		return false
+	}
 	for _, c := range s.pool() {
-		if c.repl != nil {
+		// prefer a refreshing channel that is the home of some key
+		if c.repl != nil && (ch == nil || (hasKeys(c) && !hasKeys(ch))) {
 			ch = c
 		}
 	}
 	if ch == nil {
+		return false
+	}
+	if !hasKeys(ch) && (s.prop == "C01" || s.prop == "C08") && s.macroTries < 40 {
+		// wait for a refresh of a channel that is the home of some key
+		s.macroTries++
 		return false
 	}
 	ok := func() bool { return s.viol == nil && !s.dead }
@@ -2636,13 +2683,76 @@ func (s *sim) macroShutdownDuringRefresh() bool {
 	if !ok() {
 		return true
 	}
+	// calls for the keys bound to this channel while its old connection is gone
+	// and the replacement is not READY yet, and again after the take-over
+	keyedCalls := func() {
+		for _, k := range simKeys {
+			if s.bind[k] == ch && ok() && len(s.pubs) > 0 {
+				s.hit("C08.macro-keyed-call-around-takeover")
+				s.start("/v/bound", k, s.pubs[len(s.pubs)-1], true, false, 0, nil, false)
+			}
+		}
+	}
+	keyedCalls()
+	if !ok() {
+		return true
+	}
 	if repl.state == connectivity.Idle {
 		s.report(repl, connectivity.Connecting)
 	}
 	if ok() {
 		s.report(repl, connectivity.Ready)
 	}
+	if ok() {
+		keyedCalls()
+	}
 	return true
+}
+
+// macroUnbindAcrossShutdown: K is bound to channel A; an UNBIND call for K is
+// placed (on A); A is reported SHUTDOWN before the UNBIND completes; the UNBIND
+// succeeds; a later call carrying K must be routed like an unknown key.
+// Returns false when no bound key with a READY home exists right now.
+func (s *sim) macroUnbindAcrossShutdown() bool {
+	if s.rr || s.hostile || len(s.pubs) == 0 {
+		return false
+	}
+	for _, k := range simKeys {
+		ch, ok := s.bind[k]
+		if !ok || !ch.alive || !ch.ready() || ch.repl != nil {
+			continue
+		}
+		okf := func() bool { return s.viol == nil && !s.dead }
+		before := len(s.calls)
+		s.start("/v/unbind", k, s.pubs[len(s.pubs)-1], true, false, 0, nil, false)
+		if !okf() || len(s.calls) != before+1 {
+			return true
+		}
+		s.hit("C01.macro-unbind-across-shutdown")
+		s.report(ch.conn, connectivity.Shutdown)
+		if !okf() {
+			return true
+		}
+		s.finish(len(s.calls)-1, "ok", nil)
+		if !okf() {
+			return true
+		}
+		// bring another channel up if none is READY, then route K
+		for _, c := range s.pool() {
+			for guard := 0; !c.ready() && guard < 4 && okf() && c.repl == nil; guard++ {
+				if c.conn.state == connectivity.Idle {
+					s.report(c.conn, connectivity.Connecting)
+				} else {
+					s.report(c.conn, connectivity.Ready)
+				}
+			}
+		}
+		if okf() && len(s.pubs) > 0 {
+			s.start("/v/bound", k, s.pubs[len(s.pubs)-1], true, false, 0, nil, false)
+		}
+		return true
+	}
+	return false
 }
 
 // simSetCursor presets the balancer's round-robin cursor through reflection so
